@@ -57,6 +57,13 @@ def make_np(S, M, D, ncoef, junk_tag=''):
             assert tok.kind == 'conv'
             g = tok.get
             fi = tok.filt
+            if n is None and D % 2:
+                # NumPy: without n the output has 2*(m-1) samples, m = D//2+1 bins: for an odd D that is D-1 samples of
+                # a different (even-length) inverse transform -- unrelated values
+                GARB = z3.Function('irfft_wrong_length', I, I, R)
+                return ND.fresh((D - 1,), lambda idx: GARB(fi, idx[0]), 'f8')
+            if n is not None and not (isinstance(n, int) and n == D):
+                raise Unsupported('irfft with n != dft size')
 
             def get(idx):
                 nn = idx[0]
@@ -220,7 +227,7 @@ def si_grid(tier):
     """(S, M, D, style, translation) of hand-built instances that satisfy the property's precondition:
     frame shift shorter than the longest filter's one-sided support -- causal: S < M - translation (support measured
     from sample 0), centered: S < M - M//2 (measured from the support's centre); frame_length = M+S-1 <= D."""
-    g = [(2, 3, 6, 'causal', 0), (2, 4, 8, 'causal', 1), (2, 5, 8, 'centered', None), (1, 3, 6, 'centered', None)]
+    g = [(2, 3, 6, 'causal', 0), (2, 4, 7, 'causal', 1), (2, 5, 9, 'centered', None), (1, 3, 6, 'centered', None)]
     if tier == 'thorough':
         g += [(3, 5, 9, 'causal', 1), (2, 4, 6, 'causal', 1), (3, 7, 12, 'centered', None), (2, 6, 9, 'centered', None)]
     for (S, M, D, style, tr) in g:
